@@ -1,7 +1,9 @@
 package sim
 
 import (
+	"crypto/tls"
 	"encoding/json"
+	"net"
 	"fmt"
 	"os"
 	"runtime"
@@ -14,6 +16,7 @@ import (
 	"testing/synctest"
 	"time"
 
+	ldap "github.com/go-ldap/ldap/v3"
 	"github.com/jimlambrt/gldap/simrt"
 )
 
@@ -123,6 +126,7 @@ func TestWorker(t *testing.T) {
 	if cfg.Stride <= 0 {
 		cfg.Stride = 1
 	}
+	prewarm()
 	sum := &WorkerSummary{Probes: map[string]int{}, Faults: map[string]int{}}
 	sigs := map[string]bool{}
 	start := time.Now()
@@ -179,6 +183,10 @@ func TestWorker(t *testing.T) {
 				sum.StepCaps++
 			}
 			for k, v := range st.probes {
+				if strings.HasSuffix(k, "-total") {
+					sum.Probes[k] = v // a constant of the scenario, not a counter
+					continue
+				}
 				sum.Probes[k] += v
 			}
 			for k, v := range st.faults {
@@ -285,4 +293,35 @@ func firstLine(s string) string {
 		return s[:i]
 	}
 	return s
+}
+
+// prewarm runs every lazy initialisation of the libraries (godebug settings,
+// certificate pools, the harness PKI, TLS internals) once on the test's own
+// goroutine, before any bubble exists: everything started later then
+// happens-after it. Otherwise the first simulated goroutine to need one of
+// them would initialise it, possibly inside a region where the race detector
+// ignores synchronisation, and a later reader would be reported as racing.
+func prewarm() {
+	p := getPKI()
+	_ = p
+	time.NewTimer(time.Hour).Stop()
+	a, b := net.Pipe()
+	done := make(chan error, 1)
+	go func() {
+		sc := tls.Server(a, serverTLS(2))
+		err := sc.Handshake()
+		if err == nil {
+			buf := make([]byte, 1)
+			_, err = sc.Read(buf)
+		}
+		done <- err
+		a.Close()
+	}()
+	cc := tls.Client(b, clientTLS(""))
+	if err := cc.Handshake(); err == nil {
+		cc.Write([]byte{1})
+	}
+	<-done
+	b.Close()
+	_, _ = ldap.CompileFilter("(cn=x)")
 }
